@@ -748,7 +748,11 @@ func (p *proxyObject) proxyDeleteCheck(trapResult bool, targetProp Value, name f
 func (p *proxyObject) deleteStr(name unistring.String, throw bool) bool {
 	target := p.target
 	if v, ok := p.checkHandler().deleteStr(target, name); ok {
-		p.proxyDeleteCheck(v, target.self.getOwnPropStr(name), name, target, throw)
+		var targetProp Value
+		if v {
+			targetProp = target.self.getOwnPropStr(name)
+		}
+		p.proxyDeleteCheck(v, targetProp, name, target, throw)
 		return v
 	}
 
@@ -758,7 +762,11 @@ func (p *proxyObject) deleteStr(name unistring.String, throw bool) bool {
 func (p *proxyObject) deleteIdx(idx valueInt, throw bool) bool {
 	target := p.target
 	if v, ok := p.checkHandler().deleteIdx(target, idx); ok {
-		p.proxyDeleteCheck(v, target.self.getOwnPropIdx(idx), idx, target, throw)
+		var targetProp Value
+		if v {
+			targetProp = target.self.getOwnPropIdx(idx)
+		}
+		p.proxyDeleteCheck(v, targetProp, idx, target, throw)
 		return v
 	}
 
@@ -768,7 +776,11 @@ func (p *proxyObject) deleteIdx(idx valueInt, throw bool) bool {
 func (p *proxyObject) deleteSym(s *Symbol, throw bool) bool {
 	target := p.target
 	if v, ok := p.checkHandler().deleteSym(target, s); ok {
-		p.proxyDeleteCheck(v, target.self.getOwnPropSym(s), s, target, throw)
+		var targetProp Value
+		if v {
+			targetProp = target.self.getOwnPropSym(s)
+		}
+		p.proxyDeleteCheck(v, targetProp, s, target, throw)
 		return v
 	}
 
